@@ -45,7 +45,7 @@ def drive(sc):
     ctx.add_observer(EventType.FINISHED_EVALUATION, lambda e: seen.extend(e.data["results"]))
     plan = Plan(ctx)
     step = plan.add_step("evaluator")
-    tracker = plan.add_handler("tracker", what="last", constraint_tolerance=sc["tol"] + 0.5, sources={step})
+    tracker = plan.add_handler("tracker", what="last", constraint_tolerance=(0.0 if sc["tol"] == 0 else sc["tol"] + 0.5), sources={step})
     _, outcome = outcome_of(lambda: plan.run_step(step, config=cfg, transforms=transforms))
     fr = next((r for r in seen if isinstance(r, FunctionResults)), None)
     ci = None if fr is None else fr.constraint_info
